@@ -701,15 +701,15 @@ def op_enabled(op, names):
     return True
 
 
-JUDGED = set()       # digests of live states whose restart extension has been judged (inherited by fork)
+JUDGED = set()       # digests of live states whose restart extension was judged and held (filled by the parent
+#                      between levels, inherited by the forked workers)
+_LOCAL = set()       # the same, found while expanding the current work item (reset per item, so that what is
+#                      executed for an item does not depend on which worker got it)
 
 
 def _need_extension(canon):
     d = digest16(canon)
-    if d in JUDGED:
-        return False
-    JUDGED.add(d)
-    return True
+    return d not in JUDGED and d not in _LOCAL
 
 
 def successors(history, names, cfg):
@@ -760,6 +760,7 @@ def expand(item, res):
     history = [(tuple(o), tuple(c), bool(k)) for o, c, k in history]
     out = []
     first = last = None
+    _LOCAL.clear()
     for step, ex in successors(history, names, cfg):
         res.count('executions')
         res.count('transitions')
@@ -796,6 +797,7 @@ def expand(item, res):
                               {'history': full, 'seed': SEED})
             determinism_check(full, ex, res)
             continue
+        _LOCAL.add(digest16(ex.canon))        # held here (or was judged before): need not be judged again
         res.distinct_add('states', ex.canon)
         if len(ex.log) and step[0][0] not in ('restart',):
             res.distinct_add('nontrivial', ex.canon)
